@@ -67,3 +67,60 @@ Definition extensional {R} (F : heap_fun R) : Prop :=
   forall h h' m, mview h m = mview h' m -> fst (F h m) = fst (F h' m).
 
 Definition wfm (h : qheap) (m : list nat) : Prop := Forall (fun l => l < length h) m.
+
+(* ------------------------------------------------------------------ *)
+(* the other matrix-taking functions of clustering.py / cython/_cluster.py as
+   functions of a matrix OBJECT.  The results are the models of C05/C09
+   (Cluster/FlatQ.v, Cluster/Upgma.v, Cluster/Neighbor.v, tied to the code there);
+   here it matters where they write. *)
+From LV Require Cluster.Upgma Cluster.Neighbor.
+
+(* cython/_cluster.flat_cluster, which matrix2groups and Wordlist.calculate('groups')
+   call directly on the caller's matrix: it knows three methods; any other name
+   ('ward' arrives here un-squared) leaves the singleton clusters *)
+Inductive lmethod := LKnown (m : method) | LOther.
+
+Definition singletons (n : nat) : clusters := map (fun i => (i, [i])) (seq 0 n).
+
+Definition low_flat (lm : lmethod) (thr : Q) (m : mat) : clusters :=
+  match lm with
+  | LKnown meth => flat_cluster meth thr m
+  | LOther => singletons (length m)
+  end.
+
+(* _neighbor: new_matrix = [[cell for cell in line] for line in matrix]; the scores
+   score - averages[i] - averages[j] are written into new_matrix, below the diagonal
+   and mirrored (lines 601-610); the recursion then works on squareform() lists *)
+Definition nj_scored (m : mat) : mat :=
+  Neighbor.mk_mat (length m) (fun a b =>
+    if Nat.ltb b a then Neighbor.nj_q m b a
+    else if Nat.ltb a b then Neighbor.nj_q m a b
+    else dm m a a).
+
+Inductive mfun :=
+| MFlat (ward : bool) (meth : method) (thr : Q)     (* clustering.flat_cluster *)
+| MLowFlat (lm : lmethod) (thr : Q)                 (* _cluster.flat_cluster; matrix2groups(thr, m, taxa, method) *)
+| MUpgma                                            (* upgma / matrix2tree(..., 'upgma') *)
+| MNeighbor.                                        (* neighbor / matrix2tree(..., 'neighbor') *)
+
+Inductive mres := RClusters (c : clusters) | RRows (r : list Nwk.row).
+
+Definition mfun_run (f : mfun) : heap_fun mres :=
+  fun h m =>
+    match f with
+    | MFlat ward meth thr => let (r, h') := flat_cluster_h ward meth thr h m in (RClusters r, h')
+    | MLowFlat lm thr => (RClusters (low_flat lm thr (mview h m)), h)
+    | MUpgma => (RRows (Upgma.upgma_rows (length m) (dm (mview h m))), h)
+    | MNeighbor =>
+        let v := mview h m in
+        let (h1, m1) := alloc_mat h v in
+        let h2 := match length v with
+                  | 0 | 1 | 2 => h1              (* returns before the working copy is made *)
+                  | _ => write_rows h1 m1 (nj_scored v)
+                  end in
+        (RRows (Neighbor.nj_rows v), h2)
+    end.
+
+(* the variant a dropped working copy gives (mutant M4): the scores go into the caller's rows *)
+Definition neighbor_inplace : heap_fun mres :=
+  fun h m => let v := mview h m in (RRows (Neighbor.nj_rows v), write_rows h m (nj_scored v)).
